@@ -26,7 +26,7 @@ RULE = (
     "call-shape matrix: sources {in-memory, computed (elementwise/reduction), rechunked, fused chain} x targets {new path, "
     "path+group (to_zarr), existing Zarr array with equal / coarser / finer / unrelated chunking, sharded array} x regions "
     "{none, full, chunk-aligned offset, misaligned, wrong shape} x {store, to_zarr} x {eager, compute=False} x pair lists with "
-    "a repeated source or several sources x executors {single-threaded, threads, harness-sequential}; geometry randomised "
+    "a repeated source or several sources x {source never computed, source computed before the store call (30%)} x executors {single-threaded, threads, harness-sequential}; geometry randomised "
     "inside each cell. An evaluation = one call; non-trivial = the call was accepted and its target(s) read back and compared "
     "(or it was rejected and the trace inspected); distinct by hash of the call description"
 )
@@ -56,6 +56,8 @@ def draw_call(rng):
         "seed": rng.getrandbits(30),
         "optimize": rng.random() < 0.7,
     }
+    # history: the source was already computed (materialised in the intermediate store) before it is stored
+    c["precompute"] = c["source"] != "memory" and rng.random() < 0.3
     tk = rng.choice(["path", "path", "existing_equal", "existing_coarser", "existing_finer", "existing_unrelated", "sharded", "group"])
     if tk == "group" and c["api"] != "to_zarr":
         tk = "path"
@@ -219,6 +221,13 @@ def run_call(c, workdir, res, monitors_c05=False, callbacks=None):
             s, e = build_source(c, spec, k)
             srcs.append(s)
             exps.append(e)
+    if c.get("precompute"):
+        try:
+            for s_ in {id(s_): s_ for s_ in srcs}.values():
+                s_.compute(executor=runner.make_executor("single-threaded"))
+            res["counters"]["sources_computed_before_the_store"] = res["counters"].get("sources_computed_before_the_store", 0) + 1
+        except Exception:
+            pass
     targets = [make_target(c, workdir, k) for k in range(npairs)]
     region = region_of(c)
     ex = advexec.SeqExecutor({"order": "shuffle", "seed": 5}) if c["executor"] == "seq" else advexec.Wrap(runner.make_executor(c["executor"]))
@@ -307,7 +316,7 @@ def run_call(c, workdir, res, monitors_c05=False, callbacks=None):
     return viols, {"events": events, "writes": writes, "target_roots": target_roots}
 
 
-EXTRA = ("accepted", "rejected", "targets_read_back", "plain_calls_rejected")
+EXTRA = ("sources_computed_before_the_store", "accepted", "rejected", "targets_read_back", "plain_calls_rejected")
 
 
 def run_shard(spec, workdir):
@@ -345,6 +354,7 @@ def finalize(tier, merged):
         "floors": [
             ("targets read back and compared with the paste model", c.get("targets_read_back", 0), 800 if tier == "quick" else 14000),
             ("distinct call-shape cells exercised", len(merged["hist"].get("config", {})), 40),
+            ("calls whose source had been computed before it was stored", c.get("sources_computed_before_the_store", 0), 150 if tier == "quick" else 2500),
             ("rejected calls whose trace was inspected", c.get("rejected", 0), 100 if tier == "quick" else 2000),
         ],
         "assumptions": ASSUMPTIONS,
